@@ -1,6 +1,7 @@
 import XpmVerif.Basic.JsonUtil
 import XpmVerif.Model.Validate
 import XpmVerif.Model.ValidateMro
+import XpmVerif.Model.ValidateX
 /-! Line-protocol driver for M6/validate (C15).  `lake env lean --run Drive/C15.lean < ops.jsonl` -/
 open Lean XpmVerif XpmVerif.J XpmVerif.Validate
 
@@ -133,7 +134,8 @@ def step (_ : Unit) (j : Json) : Unit × Json :=
       let a := argOf (fld j "arg")
       let v := valOf (fld j "v")
       let conf := conforms a.ty v
-      (match setArg I a v with
+      let ch : Option Chk := if isNull (fld (fld j "arg") "choices") then none else some (.choices ((arrF (fld j "arg") "choices").map valOf))
+      (match setArgX I { decl := a, checker := ch } v with
        | .ok w => Json.mkObj [("r", "ok"), ("v", valJ w), ("conf_in", conf), ("conf_out", conforms a.ty w || (!a.required && (match w with | .none => true | _ => false))),
                               ("eq", pyEq w v)]
        | .error e => Json.mkObj [("r", "err"), ("e", errJ e), ("conf_in", conf)])
@@ -141,9 +143,11 @@ def step (_ : Unit) (j : Json) : Unit × Json :=
     | "graph" =>
       let g := graphOf j
       let root := natF j "root"
-      let (o, vis) := validateFrom I g [] root
-      let (o2, vis2) := validateFrom I g vis root
-      let (so, s) := submit I g {} root
+      let hs := (arrF j "hooks").map (fun h => ((arr h).getD 0 Json.null |> nat, (arr h).getD 1 Json.null |> nat, valOf ((arr h).getD 2 Json.null)))
+      let H : Hooks := fun c vals => hs.any (fun h => h.1 == c && (match vals[h.2.1]? with | some (some v) => pyEq v h.2.2 | _ => false))
+      let (o, vis) := validateFromX I H g [] root
+      let (o2, vis2) := validateFromX I H g vis root
+      let (so, s) := submitX I H g {} root
       Json.mkObj [("validate", outJ o), ("again", outJ o2), ("flags", Json.arr ((vis.mergeSort (· ≤ ·)).map (fun (n : Nat) => (n : Json))).toArray),
         ("flags2", vis2.length), ("submit", outJ so), ("jobs", s.jobs.length),
         ("missing_deep", reachMissing g (allSuccs g) [root] []),
